@@ -222,6 +222,16 @@ class StmtMixin:
             for st2, r in self.ev(t.value, st, outs):
                 if not isinstance(r.ty, TRef):
                     raise Unsupported(f'attribute store on {r.ty}')
+                ci = self.src.find_class(r.ty.cls)
+                setter = next(((c, c.setters[t.attr]) for c in (self.src.class_mro(ci) if ci is not None else [])
+                               if t.attr in c.setters), None)
+                if setter is not None:
+                    # assignment to a property: its setter runs (by contract `C.attr.setter`, or inlined)
+                    c, node = setter
+                    fr = FuncRef(c.module.relpath, f'{c.qualname}.{t.attr}.setter', node, cls=c)
+                    for st3, _ in self.call_func(fr, r, [v], {}, st2, outs, t):
+                        yield st3
+                    continue
                 self.write_field(st2, r, t.attr, v)
                 yield st2
         elif isinstance(t, ast.Subscript):
